@@ -246,6 +246,14 @@ func (j *fmtJudge) judge(b ref.Bits, sp fspec, f64 *float64, only string) {
 				} else {
 					j.sh.Cell("L1/Sprintf")
 				}
+				// complete text from the independent model of the fmt/strconv rules
+				if want, ok := expectText(n, &sp); ok {
+					if sprintf != want {
+						violate("Sprintf", "text", fmt.Sprintf("%q (layout model of fmt on the exact half-even digits)", want), fmt.Sprintf("%q", sprintf))
+					} else {
+						j.sh.Cell("L1/text-model")
+					}
+				}
 			}
 			if f64 != nil {
 				want := fmt.Sprintf("%"+sp.spec, *f64)
@@ -292,6 +300,9 @@ func (j *fmtJudge) judge(b ref.Bits, sp fspec, f64 *float64, only string) {
 				violate("Format", "digits", want, fmt.Sprintf("%q", s1))
 			} else {
 				j.sh.Cell("L1/Format")
+			}
+			if want, ok := expectText(n, &sp); ok && s1 != want {
+				violate("Format", "text", fmt.Sprintf("%q (layout model of strconv on the exact half-even digits)", want), fmt.Sprintf("%q", s1))
 			}
 			if f64 != nil {
 				want := strconv.FormatFloat(*f64, sp.verb, sp.prec, 64)
@@ -481,7 +492,47 @@ func comboSpec(idx int) fspec {
 	return makeSpec(fmtVerbs[v], fl, w, p)
 }
 
+// validateTextModel compares the harness's model of the fmt/strconv layout
+// rules with the installed toolchain's fmt on values a float64 holds exactly
+// (the statement's configuration parameter). A disagreement is a defect of the
+// oracle, never a verdict about the library.
+func validateTextModel(seed uint64) error {
+	r := gen.NewRNG(seed, 0xC07)
+	n := 0
+	for i := 0; i < 120000; i++ {
+		sp := makeSpec(fmtVerbs[r.Intn(6)], r.Intn(32), r.Pick(-1, r.Range(0, 40)), r.Pick(-1, r.Range(0, 40), r.Range(0, 8)))
+		b, f, ok := float64Exact(r, r.Chance(1, 3))
+		if i%50 == 0 {
+			f = 0
+			if i%100 == 0 {
+				f = math.Copysign(0, -1)
+			}
+			b, ok = ref.Encode(math.Signbit(f), new(big.Int), r.Range(-5, 5)), true
+		}
+		if !ok {
+			continue
+		}
+		got, ok := expectText(ref.Decode(b), &sp)
+		if !ok {
+			continue
+		}
+		n++
+		if want := fmt.Sprintf("%"+sp.spec, f); got != want {
+			return fmt.Errorf("C07 text model disagrees with the toolchain's fmt: %%%s of %v: model %q, fmt %q", sp.spec, f, got, want)
+		}
+	}
+	if n < 30000 {
+		return fmt.Errorf("C07 text model validated on only %d cases", n)
+	}
+	return nil
+}
+
 func runC07(c *Ctx) {
+	if err := validateTextModel(c.Seed); err != nil {
+		c.Col.Res.Internal = err.Error()
+		return
+	}
+	c.Col.Res.Extra["text_model_validated_against_fmt"] = true
 	stride := c.Pick(1, 1)
 	c.Parallel("specs", ref.NearestEven, func(sh *mon.Shard, r *gen.RNG) {
 		j := &fmtJudge{ctx: c, sh: sh}
@@ -556,7 +607,7 @@ func runC07(c *Ctx) {
 	c.Col.Res.Targets = append(c.Col.Res.Targets,
 		mon.Target{Prefix: "round/", Total: 5, Min: 5},
 		mon.Target{Prefix: "verb/", Total: 6, Min: 6},
-		mon.Target{Prefix: "L", Total: 4, Min: 4},
+		mon.Target{Prefix: "L", Total: 5, Min: 5},
 	)
 }
 
